@@ -16,7 +16,20 @@ use std::convert::TryFrom;
 use std::convert::TryInto;
 use std::mem;
 
+pub mod ext {
+use vstd::prelude::*;
+use vstd::std_specs::convert::{IntoSpec, FromSpec, TryFromSpec, TryIntoSpec};
+use bytes::{Buf, BufMut, Bytes, BytesMut};
+use faststr::FastStr;
+use linkedbytes::LinkedBytes;
+use integer_encoding::VarInt;
+use std::convert::TryFrom;
+use std::convert::TryInto;
+use std::mem;
+use super::bytespec::*;
 verus! {
+
+global size_of usize == 8;   // x86_64 / aarch64: the targets pilota is built for
 
 // ------------------------------------------------------------------ external types (A2, A4)
 #[verifier::external_type_specification]
@@ -97,7 +110,7 @@ pub assume_specification<'b, T: Buf + ?Sized>[ <&'b mut T as Buf>::copy_to_slice
 
 // ------------------------------------------------------------------ Bytes (A2)
 pub assume_specification[ Bytes::len ](s: &Bytes) -> (r: usize)
-    ensures r == s.rem().len();
+    ensures r == s.rem().len(), r <= isize::MAX;   // Rust allocations never exceed isize::MAX bytes
 /// documented panic: `at > len`
 pub assume_specification[ Bytes::split_to ](s: &mut Bytes, at: usize) -> (r: Bytes)
     requires at <= (*old(s)).rem().len()
@@ -147,35 +160,6 @@ pub fn vstr_as_bytes(s: &str) -> (r: &[u8])
     ensures r@ == str_bytes(s)
 { s.as_bytes() }
 
-// ------------------------------------------------------------------ spec: fixed-width integers
-/// two's complement of v in `bits` bits, as a natural number
-pub open spec fn tc(v: int, bits: nat) -> nat {
-    if v < 0 { (v + pow2n(bits)) as nat } else { v as nat }
-}
-pub open spec fn pow2n(bits: nat) -> int {
-    if bits == 8 { 0x100 } else if bits == 16 { 0x1_0000 } else if bits == 32 { 0x1_0000_0000 }
-    else if bits == 64 { 0x1_0000_0000_0000_0000 } else { 0 }
-}
-pub open spec fn byte_at(n: nat, i: nat) -> u8 {   // i-th least significant byte
-    if i == 0 { (n % 256) as u8 }
-    else if i == 1 { ((n / 0x100) % 256) as u8 }
-    else if i == 2 { ((n / 0x1_0000) % 256) as u8 }
-    else if i == 3 { ((n / 0x100_0000) % 256) as u8 }
-    else if i == 4 { ((n / 0x1_0000_0000) % 256) as u8 }
-    else if i == 5 { ((n / 0x100_0000_0000) % 256) as u8 }
-    else if i == 6 { ((n / 0x1_0000_0000_0000) % 256) as u8 }
-    else { ((n / 0x100_0000_0000_0000) % 256) as u8 }
-}
-pub open spec fn be16(n: nat) -> Seq<u8> { seq![byte_at(n,1), byte_at(n,0)] }
-pub open spec fn be32(n: nat) -> Seq<u8> { seq![byte_at(n,3), byte_at(n,2), byte_at(n,1), byte_at(n,0)] }
-pub open spec fn be64(n: nat) -> Seq<u8> {
-    seq![byte_at(n,7), byte_at(n,6), byte_at(n,5), byte_at(n,4), byte_at(n,3), byte_at(n,2), byte_at(n,1), byte_at(n,0)]
-}
-pub open spec fn le16(n: nat) -> Seq<u8> { seq![byte_at(n,0), byte_at(n,1)] }
-pub open spec fn le32(n: nat) -> Seq<u8> { seq![byte_at(n,0), byte_at(n,1), byte_at(n,2), byte_at(n,3)] }
-pub open spec fn le64(n: nat) -> Seq<u8> {
-    seq![byte_at(n,0), byte_at(n,1), byte_at(n,2), byte_at(n,3), byte_at(n,4), byte_at(n,5), byte_at(n,6), byte_at(n,7)]
-}
 /// IEEE-754 bit pattern of an f64 (Verus has no float theory: bit identity is what the wire needs)
 pub uninterp spec fn f64_bits(d: f64) -> u64;
 pub uninterp spec fn f32_bits(d: f32) -> u32;
@@ -273,10 +257,55 @@ pub fn vdebug_assert(c: bool)
 { }
 
 } // verus!
+}
+pub use ext::*;
+
+
+pub mod bytespec {
+use vstd::prelude::*;
+verus! {
+// ------------------------------------------------------------------ spec: fixed-width integers
+/// two's complement of v in `bits` bits, as a natural number
+pub open spec fn tc(v: int, bits: nat) -> nat {
+    if v < 0 { (v + pow2n(bits)) as nat } else { v as nat }
+}
+pub open spec fn pow2n(bits: nat) -> int {
+    if bits == 8 { 0x100 } else if bits == 16 { 0x1_0000 } else if bits == 32 { 0x1_0000_0000 }
+    else if bits == 64 { 0x1_0000_0000_0000_0000 } else { 0 }
+}
+/// opaque: exec-function proofs treat the bytes of an integer as uninterpreted terms; only the
+/// lemmas below `reveal` the arithmetic (keeps every SMT query small and stable)
+#[verifier::opaque]
+pub open spec fn byte_at(n: nat, i: nat) -> u8 {   // i-th least significant byte
+    if i == 0 { (n % 256) as u8 }
+    else if i == 1 { ((n / 0x100) % 256) as u8 }
+    else if i == 2 { ((n / 0x1_0000) % 256) as u8 }
+    else if i == 3 { ((n / 0x100_0000) % 256) as u8 }
+    else if i == 4 { ((n / 0x1_0000_0000) % 256) as u8 }
+    else if i == 5 { ((n / 0x100_0000_0000) % 256) as u8 }
+    else if i == 6 { ((n / 0x1_0000_0000_0000) % 256) as u8 }
+    else { ((n / 0x100_0000_0000_0000) % 256) as u8 }
+}
+pub open spec fn be16(n: nat) -> Seq<u8> { seq![byte_at(n,1), byte_at(n,0)] }
+pub open spec fn be32(n: nat) -> Seq<u8> { seq![byte_at(n,3), byte_at(n,2), byte_at(n,1), byte_at(n,0)] }
+pub open spec fn be64(n: nat) -> Seq<u8> {
+    seq![byte_at(n,7), byte_at(n,6), byte_at(n,5), byte_at(n,4), byte_at(n,3), byte_at(n,2), byte_at(n,1), byte_at(n,0)]
+}
+pub open spec fn le16(n: nat) -> Seq<u8> { seq![byte_at(n,0), byte_at(n,1)] }
+pub open spec fn le32(n: nat) -> Seq<u8> { seq![byte_at(n,0), byte_at(n,1), byte_at(n,2), byte_at(n,3)] }
+pub open spec fn le64(n: nat) -> Seq<u8> {
+    seq![byte_at(n,0), byte_at(n,1), byte_at(n,2), byte_at(n,3), byte_at(n,4), byte_at(n,5), byte_at(n,6), byte_at(n,7)]
+}
+} // verus!
+}
+pub use bytespec::*;
 
 pub mod casts {
 use vstd::prelude::*;
-use vstd::std_specs::convert::{IntoSpec, FromSpec, TryFromSpec, TryIntoSpec};
+use vstd::std_specs::convert::{IntoSpec, FromSpec};
+use bytes::{Buf, Bytes};
+use super::ext::BufSpec;
+use super::bytespec::*;
 verus! {
 // ------------------------------------------------------------------ wrapping casts (proved, bit_vector)
 pub broadcast proof fn lemma_u8_i8_u8(b: u8)
@@ -314,7 +343,58 @@ pub broadcast proof fn lemma_seq_assoc(a: Seq<u8>, b: Seq<u8>, c: Seq<u8>)
 pub broadcast proof fn lemma_seq_assoc2(a: Seq<u8>, b: Seq<u8>, c: Seq<u8>)
     ensures #[trigger] (a + (b + c)) == (a + b) + c
 { assert(((a + b) + c) =~= a + (b + c)); }
-pub broadcast group group_casts { lemma_seq_assoc, lemma_seq_assoc2, lemma_u8_i8_u8, lemma_i8_u8_i8, lemma_i8_u8_zero, lemma_u32_as_i32, lemma_usize_as_i32,
+/// i32 -> usize reinterpretation: sign extension
+pub broadcast proof fn lemma_i32_as_usize(x: i32)
+    ensures x >= 0 ==> (#[trigger] (x as usize)) as int == x as int,
+            x < 0 ==> (x as usize) > 0x7fff_ffff_ffff_ffffusize
+{
+    assert(x < 0i32 ==> (x as usize) > 0x7fff_ffff_ffff_ffffusize) by (bit_vector);
+}
+/// i32 -> u32 reinterpretation is two's complement
+pub broadcast proof fn lemma_i32_as_u32(x: i32)
+    ensures x >= 0 ==> (#[trigger] (x as u32)) as int == x as int,
+            x < 0 ==> (x as u32) as int == x as int + 0x1_0000_0000
+{
+    assert(x < 0i32 ==> ((x as u32) as i64) == (x as i64) + 0x1_0000_0000i64) by (bit_vector);
+}
+/// strict binary message header: `word & 0xffff0000` compares the version half-word, `word & 0xf`
+/// extracts the message type (m is the mask constant as it appears after the u32 -> i32 cast)
+pub broadcast proof fn lemma_msg_word_mask(size: i32, m: i32)
+    requires m == -65536i32
+    ensures ((#[trigger] (size & m)) == -2147418112i32) <==> (tc(size as int, 32) / 0x1_0000 == 0x8001),
+            ((size & m) == -2004353024i32) <==> (tc(size as int, 32) / 0x1_0000 == 0x8888),
+{
+    assert(((size & -65536i32) == -2147418112i32) <==> ((size as u32) / 0x1_0000u32 == 0x8001u32)) by (bit_vector);
+    assert(((size & -65536i32) == -2004353024i32) <==> ((size as u32) / 0x1_0000u32 == 0x8888u32)) by (bit_vector);
+    lemma_i32_as_u32(size);
+}
+pub broadcast proof fn lemma_msg_word_type(size: i32)
+    ensures 0 <= (#[trigger] (size & 0xfi32)) <= 15, (size & 0xfi32) as int == tc(size as int, 32) % 16
+{
+    assert(0 <= (size & 0xfi32) <= 15) by (bit_vector);
+    assert(((size & 0xfi32) as u32) == (size as u32) % 16u32) by (bit_vector);
+    lemma_i32_as_u32(size);
+}
+/// core: `impl<T> From<T> for Option<T>` and `impl<T> From<T> for T` (A5, assumed)
+pub broadcast axiom fn axiom_into_option<T>(x: T)
+    ensures #[trigger] <T as IntoSpec<Option<T>>>::into_spec(x) == Some(x);
+pub broadcast axiom fn axiom_into_option_obeys<T>()
+    ensures #[trigger] <T as IntoSpec<Option<T>>>::obeys_into_spec();
+pub broadcast axiom fn axiom_into_self<T>(x: T)
+    ensures #[trigger] <T as IntoSpec<T>>::into_spec(x) == x;
+pub broadcast axiom fn axiom_into_self_obeys<T>()
+    ensures #[trigger] <T as IntoSpec<T>>::obeys_into_spec();
+pub broadcast axiom fn axiom_from_option<T>(x: T)
+    ensures #[trigger] <Option<T> as FromSpec<T>>::from_spec(x) == Some(x);
+pub broadcast axiom fn axiom_from_option_obeys<T>()
+    ensures #[trigger] <Option<T> as FromSpec<T>>::obeys_from_spec();
+/// bytes: `impl From<Bytes> for Vec<u8>` copies the content (A2, assumed)
+pub broadcast axiom fn axiom_vec_from_bytes(b: Bytes)
+    ensures (#[trigger] <Vec<u8> as FromSpec<Bytes>>::from_spec(b))@ == b.rem();
+pub broadcast axiom fn axiom_vec_from_bytes_obeys()
+    ensures #[trigger] <Vec<u8> as FromSpec<Bytes>>::obeys_from_spec();
+pub broadcast group group_casts { lemma_i32_as_usize, lemma_i32_as_u32, lemma_msg_word_mask, lemma_msg_word_type, axiom_into_option, axiom_into_option_obeys, axiom_into_self, axiom_into_self_obeys,
+    axiom_from_option, axiom_from_option_obeys, axiom_vec_from_bytes, axiom_vec_from_bytes_obeys, lemma_seq_assoc2, lemma_u8_i8_u8, lemma_i8_u8_i8, lemma_i8_u8_zero, lemma_u32_as_i32, lemma_usize_as_i32,
     lemma_version_or, lemma_version_le_or }
 
 } // verus!
